@@ -13,12 +13,40 @@ import (
 	"verif/vrt"
 )
 
+// Schedule bounds of a plan entry: a preemption bound n >= 0, or one of these.
+const (
+	First     = -1   // only the canonical (first) schedule
+	NotRun    = -2   // not enumerated
+	Unbounded = 1000 // every schedule
+)
+
 // LenPlan: what is explored for representation lists of one length.
 type LenPlan struct {
-	Len          int `json:"len"`
-	BoundNoFault int `json:"pb_no_fault"` // preemption bound for the fault-free case
-	BoundFault   int `json:"pb_fault"`    // preemption bound for each single-fault case; <0 = faults not enumerated
-	K            int `json:"alphabet"`    // alphabet prefix
+	Len     int `json:"len"`
+	NoFault int `json:"pb_no_fault"` // schedule bound for the fault-free case
+	Fault   int `json:"pb_fault"`    // schedule bound for each single-fault case
+	K       int `json:"alphabet"`    // alphabet prefix
+}
+
+func boundName(b int) any {
+	switch b {
+	case First:
+		return "canonical schedule only"
+	case NotRun:
+		return "not enumerated"
+	case Unbounded:
+		return "none (all schedules)"
+	}
+	return b
+}
+
+// Describe renders a plan for the evidence.
+func Describe(plan []LenPlan) []map[string]any {
+	var out []map[string]any
+	for _, p := range plan {
+		out = append(out, map[string]any{"list_length": p.Len, "alphabet_size": p.K, "preemption_bound_fault_free": boundName(p.NoFault), "preemption_bound_each_single_fault": boundName(p.Fault)})
+	}
+	return out
 }
 
 // PlanFor returns the enumeration plan of a tier (VERIF_C20_PLAN overrides: "len:pb:pbf:k,...").
@@ -27,7 +55,7 @@ func PlanFor(tier string) []LenPlan {
 		var out []LenPlan
 		for _, part := range strings.Split(s, ",") {
 			var p LenPlan
-			if _, err := fmt.Sscanf(part, "%d:%d:%d:%d", &p.Len, &p.BoundNoFault, &p.BoundFault, &p.K); err != nil {
+			if _, err := fmt.Sscanf(part, "%d:%d:%d:%d", &p.Len, &p.NoFault, &p.Fault, &p.K); err != nil {
 				common.Broken("bad VERIF_C20_PLAN element %q", part)
 			}
 			out = append(out, p)
@@ -36,9 +64,9 @@ func PlanFor(tier string) []LenPlan {
 	}
 	k := len(Alphabet)
 	if tier == "thorough" {
-		return []LenPlan{{0, 3, -1, k}, {1, 3, 3, k}, {2, 3, 3, k}, {3, 2, 1, k}, {4, 0, 0, k}}
+		return []LenPlan{{0, Unbounded, NotRun, k}, {1, Unbounded, Unbounded, k}, {2, Unbounded, Unbounded, k}, {3, 1, 0, k}, {4, First, First, k}}
 	}
-	return []LenPlan{{0, 2, -1, k}, {1, 2, 2, k}, {2, 2, 2, k}, {3, 1, 0, k}}
+	return []LenPlan{{0, Unbounded, NotRun, k}, {1, Unbounded, Unbounded, k}, {2, Unbounded, Unbounded, k}, {3, 0, First, k}}
 }
 
 // Job is one scenario: a case and its preemption bound.
@@ -54,13 +82,15 @@ func Jobs(mode string, plan []LenPlan) []Job {
 	for _, p := range plan {
 		for _, l := range Lists(p.Len, p.K) {
 			c := Case{List: l}
-			out = append(out, Job{c, p.BoundNoFault})
-			if p.BoundFault < 0 {
+			if p.NoFault != NotRun {
+				out = append(out, Job{c, p.NoFault})
+			}
+			if p.Fault == NotRun {
 				continue
 			}
 			for _, f := range FaultPositions(mode, c.Reps()) {
 				f := f
-				out = append(out, Job{Case{List: l, Fault: &f}, p.BoundFault})
+				out = append(out, Job{Case{List: l, Fault: &f}, p.Fault})
 			}
 		}
 	}
@@ -99,6 +129,9 @@ func argValue(name string) string {
 
 func scenarioOf(s *Shared, j Job) *explore.Scenario {
 	b := j.Bound
+	if b == Unbounded || b == First {
+		b = -1
+	}
 	return &explore.Scenario{Name: j.Case.Name(), Bound: &b, Meta: j.Case, New: func() explore.Instance { return s.NewInst(j.Case) }}
 }
 
@@ -129,6 +162,14 @@ func HarnessMain(w Wiring) {
 		json.NewEncoder(os.Stdout).Encode(st)
 		return
 	}
+	if argValue("--count") != "" { // scenarios per list length of this tier's plan
+		n := map[int]int{}
+		for _, j := range Jobs(mode, PlanFor(tier)) {
+			n[len(j.Case.List)]++
+		}
+		fmt.Println(n)
+		return
+	}
 	var si, sn int
 	if _, err := fmt.Sscanf(argValue("--shard"), "%d/%d", &si, &sn); err != nil || sn < 1 {
 		common.Broken("harness: need --shard i/n")
@@ -152,7 +193,14 @@ func HarnessMain(w Wiring) {
 			res.PerLen[len(j.Case.List)] = pl
 			continue
 		}
-		st := explore.ExploreScenario(scenarioOf(s, j), explore.Config{Bound: j.Bound, MaxSteps: maxSteps, Deadline: deadline})
+		cfg := explore.Config{Bound: j.Bound, MaxSteps: maxSteps, Deadline: deadline}
+		if j.Bound == First {
+			cfg.MaxExecs = 1
+		}
+		st := explore.ExploreScenario(scenarioOf(s, j), cfg)
+		if j.Bound == First && st.Execs == 1 && st.Kinds["horizon"] == 0 {
+			st.Exhaustive = true // the stated space of this scenario is its canonical schedule
+		}
 		if st.Broken != "" {
 			res.Broken = st.Broken
 			break
